@@ -6,12 +6,13 @@ from debian_inspector import debcon
 import cobs
 
 PARA_LINES = ['This program is free software', 'you can redistribute it and/or modify', 'it under the terms of the GNU GPL: v2', 'é ü non-ascii words',
-              'See /usr/share/common-licenses/GPL-2', 'x', 'a  b', '(c) 2001', 'http://example.org:80/x', '-- dashes --']
+              'See /usr/share/common-licenses/GPL-2', 'x', 'a  b', '(c) 2001', 'http://example.org:80/x', '-- dashes --', 'Note: see GPL-2', 'Copyright: 2001 quoted in a text', 'License : spaced colon', 'x:']
 VERB_LINES = ['indented code', ' more indented', 'x = 1;', '. dot first', '.', '..', ' .']
 STATEMENTS = ['2001 Foo Bar', '2001-2003, 2005 Foo <f@x.org>', 'Foo Bar', '(C) 2001 X', '2001, Foo', '1999', '2001-2003 a b c d', 'Copyright Holder Inc.', '2001/2002 X',
-              'Copyright (c) 2004-2006 Joe Bloggs', '(C) Copyright IBM Corp. 2001', 'copyright 2001 x', '\u00a9 2019 Y', 'Copyright: 2001 Z']
+              'Copyright (c) 2004-2006 Joe Bloggs', '(C) Copyright IBM Corp. 2001', 'copyright 2001 x', '\u00a9 2019 Y', 'Copyright: 2001 Z',
+              '\uff12\uff10\uff11\uff18 \u5c71\u7530\u592a\u90ce', '\u0662\u0660\u0660\u0661 x', '2018\u20102019 X', '\u00b2 squared', '2001\uff0d2003 Y', '\u0967\u096f\u096f\u096f']
 PATTERNS = ['*', 'src/*', 'debian/*', 'a.c', 'doc/*.txt', 'x?y']
-NAMES = ['GPL-2+', 'MIT', 'Apache-2.0', 'GPL-2+ with OpenSSL exception', 'public-domain', 'BSD-3-clause or GPL-2']
+NAMES = ['GPL-2+', 'MIT', 'Apache-2.0', 'GPL-2+ with OpenSSL exception', 'public-domain', 'BSD-3-clause or GPL-2', 'GPL-2+   with   OpenSSL exception', 'GPL-2+  or  MIT', 'MIT ,', 'a\tb']
 FORMATS = ['https://www.debian.org/doc/packaging-manuals/copyright-format/1.0/', 'http://www.debian.org/doc/packaging-manuals/copyright-format/1.0/']
 EXTRA_LABELS = ['X-Foo', 'Origin', 'Bug-Debian', 'note']
 
@@ -59,6 +60,14 @@ def f_copyright(rng):
     return [case_label(rng, 'Copyright'), 2, rng.choice(STATEMENTS), [[0, rng.choice(STATEMENTS)] for _ in range(rng.choice((0, 0, 1, 3)))]]
 
 
+CONTACTS = ['John Doe <john@example.org>', 'Jane Roe <jane@example.org>, J. Hacker <j@x.org>', 'http://example.org/contact', 'John Doe <john@example.org> ,',
+            'a@b,,', 'Team  Name   <t@x.org>', '"Doe, John" <jd@x.org>', 'Jöhn <j@x.org> (remark)', 'unclosed <a@b', ', leading comma', 'x;y', 'mailto:a@b']
+
+
+def f_lines(rng, label):
+    return [case_label(rng, label), 6, rng.choice(CONTACTS), [[0, rng.choice(CONTACTS)] for _ in range(rng.choice((0, 0, 1, 2)))]]
+
+
 def f_license(rng, with_text):
     return [case_label(rng, 'License'), 3, rng.choice(NAMES), block(rng, rng.choice((1, 2, 4, 6))) if with_text else []]
 
@@ -84,6 +93,8 @@ def doc(rng, allow_multiline_extra=True):
     header = [f_single(rng, 'Format', rng.choice(FORMATS))]
     if rng.random() < 0.5:
         header.append(f_single(rng, 'Upstream-Name', rng.choice(('foo', 'Foo Bar', 'lib-x'))))
+    if rng.random() < 0.35:
+        header.append(f_lines(rng, 'Upstream-Contact'))
     for lab in ('Source', 'Comment', 'Disclaimer'):
         if rng.random() < 0.3:
             header.append(f_text(rng, lab))
@@ -148,7 +159,7 @@ def valid_input(op, inp):
         assert len(seps) == len(paras)
         for p in paras:
             for label, kind, first, conts in p:
-                assert isinstance(label, str) and isinstance(first, str) and kind in (0, 1, 2, 3, 4, 5)
+                assert isinstance(label, str) and isinstance(first, str) and kind in (0, 1, 2, 3, 4, 5, 6)
                 for k, c in conts:
                     assert k in (0, 1, 2) and isinstance(c, str)
         return (text == render(paras, seps) or not paras) and all(isinstance(n, int) and n >= 1 for n in seps)
